@@ -91,9 +91,10 @@ def _verify_one(args):
         seen_ = {}
         for o in ex.obls:
             if o.result != 'proved' or _z3.is_false(o.goal): continue
+            if '/on-raise/' in o.name or '/raises' in o.name: continue       # exceptional exits are collected without pruning: an unreachable one has refutable hypotheses by construction
             key_ = tuple(h.get_id() for h in o.hyps)
             if key_ not in seen_:
-                s_ = _z3.Solver(); s_.set('timeout', int(os.environ.get('PYVC_HYPS_MS', '400'))); s_.add(*o.hyps)
+                s_ = _z3.Solver(); s_.set('timeout', int(os.environ.get('PYVC_HYPS_MS', '400'))); s_.add(*solve.guarded(o.hyps))
                 seen_[key_] = (s_.check() == _z3.unsat)
             if seen_[key_]: info['vacuity'].append('the hypotheses of %s are refutable on their own' % o.name)
         info['hyps_checked'] = len(seen_)
@@ -163,6 +164,18 @@ def _pool():
     import multiprocessing as mp
     from concurrent.futures import ProcessPoolExecutor
     return ProcessPoolExecutor(max_workers=int(os.environ.get('PYVC_JOBS', '14')), mp_context=mp.get_context('fork'))
+
+def solver_selftest():
+    """the two recorded inputs on which z3 wrongly answers unsat must not be refuted once they have passed the guard of solve.py"""
+    import z3
+    d = os.path.join(os.path.dirname(os.path.abspath(__file__)), 'selftest', 'solver')
+    out = []
+    for f in ('z3_wrong_unsat.smt2', 'z3_wrong_unsat_2.smt2'):
+        s0 = z3.Solver(); s0.from_file(os.path.join(d, f)); fs = list(s0.assertions())
+        s1 = z3.Solver(); s1.set('timeout', 5000); s1.add(*fs); native = str(s1.check())
+        s2 = z3.Solver(); s2.set('timeout', 5000); s2.add(*solve.guarded(fs)); guarded = str(s2.check())
+        out.append(dict(input=f, z3_native=native, z3_after_guard=guarded))
+    return out
 
 def verify_functions(prop, mod, res, tier):
     """generate and discharge obligations for every function under contract of this property (one process per function)"""
@@ -251,6 +264,15 @@ def main(argv=None):
         if conf['runs'] - len(conf['unsupported']) < 50: res.errors.append('conformance self-test ran too few cases')
     except Exception as e:
         res.errors.append('conformance self-test crashed: %s' % e)
+    # 3c. thorough tier: the recorded inputs on which z3 answers unsat wrongly must not be refuted after the guard of solve.py
+    res.solver_selftest = None
+    if tier == 'thorough':
+        try:
+            res.solver_selftest = solver_selftest()
+            for r_ in res.solver_selftest:
+                if r_['z3_after_guard'] == 'unsat': res.errors.append('solver self-test: %s is refuted even after the nested-nth guard (a satisfiable input)' % r_['input'])
+        except Exception as e:
+            res.errors.append('solver self-test crashed: %s' % e)
     t_o = time.time()
     # 4. CPython cross-check / bounded stand-ins through the oracle (real code)
     cross = None
@@ -329,7 +351,7 @@ def write_evidence(prop, mod, res, tier, seed, wall):
             discharged=sum(1 for o in obls if o.result == 'proved'),
             checker_cmd='python3-vt bin/check %s --tier %s' % (prop, tier),
             trusted_base=['z3 %s (python API)' % solve.z3.get_version_string(), 'cvc5 1.0.3 (CLI, fallback / second opinion)',
-                          'pyvc: own AST->SMT generator in /verif/pyvc (unverified)', 'sidecar contracts in /verif/contracts (specification)'] + list(getattr(mod, 'TRUSTED', [])),
+                          'pyvc: own AST->SMT generator in /verif/pyvc (unverified)', 'solver soundness: an unsat answer of z3 / cvc5 is believed; z3 is known to answer unsat wrongly on nth over empty sequences of strings (pyvc/selftest/solver/), every query is rewritten to avoid that construct (solve.guard_nested_nth)', 'sidecar contracts in /verif/contracts (specification)'] + list(getattr(mod, 'TRUSTED', [])),
             samples=[o.summary() for o in res.obls[:12]],
             all_obligations=[dict(name=o.name, result=o.result, backend=o.backend, s=round(o.solver_s, 3)) for o in res.obls],
             backends=by_backend,
@@ -338,6 +360,7 @@ def write_evidence(prop, mod, res, tier, seed, wall):
             self_test_mutants=dict(applied=len(res.mutants), killed=sum(1 for m in res.mutants if m['status'].startswith('killed')), detail=res.mutants),
             cpython_crosscheck=res.crosscheck,
             executor_conformance=res.conformance,
+            solver_selftest=getattr(res, 'solver_selftest', None),
             bounded=getattr(mod, 'BOUNDED', []),
             known_findings=[dict(id=k['id'], what=k['what'], obligation=(o.name if o else None)) for k, o in res.known],
             not_decided=getattr(mod, 'NOT_DECIDED', []),
